@@ -231,7 +231,10 @@ def settings(ctx, dim, variant, nug="zero", n=2, tag="", aniso=False):
         a, b = ctx.real(tag + "tr_a", lo=-1.0, hi=1.0), ctx.real(tag + "tr_b", lo=-1.0, hi=1.0)
         S["trend"] = lambda *x, _a=a, _b=b: _a + _b * x[0]
     if variant == "extdrift":
-        S["ext"] = [ctx.real("%sed%d" % (tag, i), lo=-1.0, hi=1.0) for i in range(n)]
+        # native samples: external-drift values of different data points in disjoint ranges (equal values make the
+        # drift column collinear with the unbiasedness column: an ill-conditioned system, not a defect); the
+        # symbolic values are unconstrained
+        S["ext"] = [ctx.real("%sed%d" % (tag, i), lo=-1.0 + 0.9 * i, hi=-0.4 + 0.9 * i) for i in range(n)]
     return S
 
 
